@@ -415,3 +415,82 @@ Proof.
   destruct (wf_best s r rest W) as [bb Hbb].
   eapply serve_sound; eauto.
 Qed.
+
+(* ---- requests by number inside the stored range are always answered *)
+Lemma omap_total {A B} (f : A -> outcome B) l :
+  (forall x, In x l -> exists y, f x = Ok y) -> exists r, omap f l = Ok r.
+Proof.
+  induction l as [|x l IH]; intro H; [exists []; reflexivity|].
+  destruct (H x (or_introl eq_refl)) as [y Hy].
+  destruct IH as [r Hr]; [intros z Hz; apply H; now right|].
+  exists (y :: r). cbn [omap]. rewrite Hy. cbn [obind]. rewrite Hr. reflexivity.
+Qed.
+
+Lemma in_nseq x st n : In x (nseq st n) -> st <= x < st + N.of_nat n.
+Proof.
+  unfold nseq. intro H. apply in_map_iff in H. destruct H as (i & <- & Hi). apply in_seq in Hi. lia.
+Qed.
+
+Section Total.
+  Variable s : store.
+  Variable root : blk.
+  Variable rest : list blk.
+  Hypothesis W : wf s root rest.
+  Variable bb : blk.
+  Hypothesis Hbest : find_blk s (s_best s) = Some bb.
+
+  Lemma by_number_total fields l :
+    (forall n, In n l -> n <= b_number bb) -> exists r, omap (data_by_number s fields) l = Ok r.
+  Proof.
+    intro H. apply omap_total. intros n Hn. unfold data_by_number, hash_by_number.
+    destruct (anc_at_exists s root rest W _ bb n Hbest (H n Hn)) as [a Ha]. rewrite Ha.
+    cbn [obind]. eauto.
+  Qed.
+
+  Lemma serve_by_number_total req n seen :
+    r_from req = FromNum n -> r_fields req <> 0 -> seen <= max_same ->
+    (r_dir req = dir_asc /\ (if n =? 0 then 1 else n) <= b_number bb) \/ r_dir req = dir_desc ->
+    exists resp, serve s req seen = Ok resp.
+  Proof.
+    intros Hf Hz Hs Hd. unfold serve, serve_gen.
+    replace (r_fields req =? 0) with false by (symmetry; apply N.eqb_neq; exact Hz).
+    replace (max_same <? seen) with false by (symmetry; apply N.ltb_ge; exact Hs).
+    pose proof (resp_max_le req) as M.
+    pose proof (find_small s root rest W _ _ Hbest) as BS.
+    destruct Hd as [[Hd Hn]|Hd].
+    - rewrite Hd, N.eqb_refl. unfold handle_ascending. unfold best_number. rewrite Hbest, Hf. cbn [obind].
+      set (mx := resp_max req) in *. set (best := b_number bb) in *.
+      set (start := if n =? 0 then 1 else n) in *.
+      replace (best <? start) with false by (symmetry; apply N.ltb_ge; exact Hn).
+      assert (S1 : 1 <= start) by (unfold start; destruct (N.eqb_spec n 0); lia).
+      rewrite asc_end_val by lia.
+      replace (start + mx =? 0) with false by (symmetry; apply N.eqb_neq; lia).
+      set (e := if best <? start + mx - 1 then best else start + mx - 1).
+      assert (Ee : start <= e + 1 /\ e <= best) by (unfold e; destruct (N.ltb_spec best (start + mx - 1)); lia).
+      unfold handle_ascending_by_number.
+      replace (e + 1 <? start) with false by (symmetry; apply N.ltb_ge; lia).
+      apply by_number_total. intros x Hx. apply in_nseq in Hx. lia.
+    - rewrite Hd. replace (dir_desc =? dir_asc) with false by reflexivity. rewrite N.eqb_refl.
+      unfold handle_descending. rewrite Hf. unfold best_number. rewrite Hbest. cbn [obind].
+      set (mx := resp_max req) in *. set (best := b_number bb) in *.
+      set (start := if best <? n then best else n).
+      assert (Sm : start <= best) by (unfold start; destruct (N.ltb_spec best n); lia).
+      rewrite desc_end_val by lia.
+      set (e := if mx <? start then start - mx + 1 else 1).
+      assert (Ee : e <= start + 1) by (unfold e; destruct (N.ltb_spec mx start); lia).
+      unfold handle_descending_by_number.
+      replace (start + 1 <? e) with false by (symmetry; apply N.ltb_ge; lia).
+      apply by_number_total. intros x Hx. apply in_rev in Hx. apply in_nseq in Hx. lia.
+  Qed.
+End Total.
+
+Theorem serve_by_number_answers s req n seen bb :
+  indexed s -> wf_store_b s = true -> find_blk s (s_best s) = Some bb ->
+  r_from req = FromNum n -> r_fields req <> 0 -> seen <= max_same ->
+  (r_dir req = dir_asc /\ (if n =? 0 then 1 else n) <= b_number bb) \/ r_dir req = dir_desc ->
+  exists resp, serve s req seen = Ok resp /\ serve_spec_b s req resp = true.
+Proof.
+  intros I Wb Hb Hf Hz Hs Hd. destruct (wf_of_b s I Wb) as (r & rest & W).
+  destruct (serve_by_number_total s r rest W bb Hb req n seen Hf Hz Hs Hd) as [resp E].
+  exists resp. split; [exact E|]. eapply serve_correct; eauto.
+Qed.
